@@ -20,7 +20,8 @@ mechanism that makes results representation-independent: the right operand is re
 path where units differ and the ufunc is evaluated on (left, rescaled right); the simplification coefficient returned
 by the unit rule multiplies the result (and out=) on every exit; reductions of multiply/divide use the exponent map n
 and 2-n; sin/cos/tan convert angles to radian first; power accepts only a dimensionless, effectively scalar exponent
-when the base has units."""
+when the base has units.
+(R2, extended) the rescaling block is entered whenever the units differ by value; (R9) that decision rests on Unit.__eq__ comparing scale and offset with a purely relative tolerance (shared with C05-R2)."""
 LEVEL_NOTE = """Undecided: numerical equality of results; sympy's simplify/_cancel_mul internals (only the coefficient
 hand-over is checked, C05-R4). The rounding family, frexp/modf/spacing, divmod, heaviside, nextafter are outside the
 claim exactly as in the property statement (only their C01 class is checked there)."""
